@@ -232,7 +232,7 @@ def make_judges(ctx, conv_max_word=24):
 def floors(tier):
     return [(op, k) for op in REL for k in ('Fxp', 'number', 'array')] + [('ufunc', n) for n in ('less', 'less_equal', 'equal', 'not_equal', 'greater', 'greater_equal')] + \
            [('ufunc-left', k) for k in ('float64', 'array', 'Fxp')] + [('conv1', '__float__'), ('conv1', '__int__'), ('cmp-config',)] + \
-           [('conv', w) for w in ('get_val', 'astype(float)', 'astype(int)', '__float__', '__int__', '__bool__', 'raw', 'uraw')] + [('element-read', 'item'), ('element-read', 'index'), ('read-then-read',), ('cmp-integer-beyond-doubles',), ('element-read-2d',)]
+           [('conv', w) for w in ('get_val', 'astype(float)', 'astype(int)', '__float__', '__int__', '__bool__', 'raw', 'uraw')] + [('element-read', 'item'), ('element-read', 'index'), ('read-then-read',), ('cmp-integer-beyond-doubles',), ('element-read-2d',), ('cmp-narrow-numpy-integer',)]
 
 
 def cases(tier, seed):
@@ -373,6 +373,15 @@ def run_case(case, ctx):
     for r in rels:
         _try(lambda: r(x, num))
         _try(lambda: r(num, x))
+    # narrow NumPy integers as comparands (a comparison must not shift or scale them in their own type)
+    if (i // 3) % 4 == 1:
+        for tp_ in (np.int8, np.uint8, np.int16, np.uint16, np.int32):
+            info_ = np.iinfo(tp_)
+            for k_ in (info_.max, info_.max // 2 + 1, int(vy) if vy.denominator == 1 and info_.min <= vy <= info_.max else info_.min, rng.randint(info_.min, info_.max)):
+                for r in rels[:4] if k_ != info_.max else rels:
+                    _try(lambda: r(x, tp_(k_)))
+                _try(lambda: tp_(k_) < x)
+        ctx.floor_hit(('cmp-narrow-numpy-integer',))
     # python integers of any size are plain numbers: beyond 2^63, and beyond the range of doubles (either sign, either side)
     if (i // 3) % 4 == 0:
         for big in (2 ** 64 + 1, -(2 ** 70), 2 ** 1024, -(10 ** 309), 10 ** 400 + 1):
